@@ -32,7 +32,7 @@ def redeem_push(draw, lo=80, hi=1700):
 
 
 @st.composite
-def txs(draw, max_in=8, max_ops=8, max_out=8, big_last=True):
+def txs(draw, max_in=8, max_ops=8, max_out=8, big_last=True, witness=True):
     nin = draw(st.integers(1, max_in))
     nout = draw(st.integers(0, max_out))
     ins = []
@@ -47,8 +47,18 @@ def txs(draw, max_in=8, max_ops=8, max_out=8, big_last=True):
     outs = [[draw(st.one_of(st.sampled_from([0, 1, 21 * 10 ** 14, 2 ** 63 - 1]),
                             st.integers(0, 21 * 10 ** 14))),
              draw(st.binary(max_size=40))] for _ in range(nout)]
-    return [draw(st.sampled_from([1, 2])), ins, outs,
-            draw(st.one_of(st.sampled_from(U32_EDGES), st.integers(0, 2 ** 32 - 1)))]
+    tx = [draw(st.sampled_from([1, 2])), ins, outs,
+          draw(st.one_of(st.sampled_from(U32_EDGES), st.integers(0, 2 ** 32 - 1)))]
+    if witness and draw(st.integers(0, 3)) == 0:
+        # BIP144 serialization: one witness stack per input, at least one of them not empty
+        # (with every stack empty the classic serialization is the canonical one)
+        stacks = [draw(st.lists(st.one_of(st.just(b""), st.binary(max_size=80)), max_size=4))
+                  for _ in range(nin)]
+        k = draw(st.integers(0, nin - 1))
+        if not stacks[k]:
+            stacks[k] = [draw(st.binary(max_size=80))]
+        tx.append(stacks)
+    return tx
 
 
 def chunk_policy():
